@@ -570,11 +570,19 @@ class Interp:
             return b.is_none
         if isinstance(a, VOpt) or isinstance(b, VOpt):
             a, b = self.unwrap(a, node), self.unwrap(b, node)
+        if (isinstance(a, VNone) and isinstance(b, VOpaque)) or (isinstance(b, VNone) and isinstance(a, VOpaque)):
+            x = a if isinstance(a, VOpaque) else b
+            return x.t == self.ctx.NONE_OBJ         # a value known only as a term may be None (objects declared Opaque(...) are assumed not to be)
         if isinstance(a, VNone) or isinstance(b, VNone):
             return z3.BoolVal(isinstance(a, VNone) and isinstance(b, VNone))
         if (isinstance(a, VOpaque) and isinstance(b, VClass)) or (isinstance(b, VOpaque) and isinstance(a, VClass)):
             x, c = (a, b) if isinstance(a, VOpaque) else (b, a)
             return x.t == self.ctx.class_const(c.info)
+        if (isinstance(a, VOpaque) and isinstance(b, (VBuiltin, VType))) or (isinstance(b, VOpaque) and isinstance(a, (VBuiltin, VType))):
+            # the class of an object of an unverified library against an external class / builtin type: a constant per name
+            x, c = (a, b) if isinstance(a, VOpaque) else (b, a)
+            if isinstance(c, VType) or c.self_val is None:
+                return x.t == z3.Const(('type.' if isinstance(c, VType) else 'extname.') + c.name, T.Obj)
         if isinstance(a, VType) and isinstance(b, VType):
             return z3.BoolVal(a.name == b.name)
         if isinstance(a, VType) or isinstance(b, VType):
